@@ -79,10 +79,10 @@ def gen(ctx, what, big=None):
 
 
 def judge(ctx, what, recs, shards=None):
-    return vlib.tlc_judge(ctx, JUDGE, JUDGE_CFG, recs, env={"WHAT": what}, shards=shards or max(1, min(8, len(recs) // 150)))
+    return vlib.tlc_judge(ctx, JUDGE, JUDGE_CFG, recs, env={"WHAT": what}, shards=shards or max(1, min(8, len(recs) // 400)))
 
 
-def model_check(ctx, module, cfg, workers=4):
+def model_check(ctx, module, cfg, workers=1):
     return vlib.tlc_model_check(ctx, module, cfg, workers=workers)
 
 
@@ -147,7 +147,7 @@ def run(ctx):
     binp = build()
     lap("build")
     q = ctx.quick()
-    layouts = 2 if q else 6
+    layouts = 2 if q else 10
     info = {}
 
     def branch_docs():
